@@ -3,6 +3,8 @@
 mod common;
 mod c19;
 mod c17;
+mod lang;
+mod c16;
 
 fn main() {
     common::install_panic_hook();
@@ -15,6 +17,7 @@ fn main() {
     match args[1].as_str() {
         "c19" => c19::main(&a),
         "c17" => c17::main(&a),
+        "c16" => c16::main(&a),
         "features" => {
             println!("checks={} explanations={}", cfg!(feature = "checks"), cfg!(feature = "explanations"));
         }
